@@ -58,12 +58,14 @@ func run(sc scenario) (body func(), check func(r *vrt.Result) []finding) {
 		// endpoints behave like real peers: when their reader ends (EOF / error) they close their side
 		if sc.Event == "bad_preface" {
 			w.Client.Conn.Write([]byte("GET / HTTP/1.1\r\nHost: x\r\n\r\n"))
+		} else if sc.State == "mid_preface" {
+			w.Client.Conn.Write([]byte(hw.Preface[:10])) // the session ends while the relay still waits for the rest
 		} else {
 			w.Client.WritePreface(0)
 		}
 		vrt.WaitQuiescent()
 		dialled = w.Server != nil
-		if dialled && sc.Event != "bad_preface" {
+		if dialled && sc.Event != "bad_preface" && sc.State != "mid_preface" && sc.State != "pre_settings" {
 			w.Client.Write(hw.Spec{T: "settings"})
 			w.Server.Write(hw.Spec{T: "settings"})
 			vrt.WaitQuiescent()
@@ -252,6 +254,13 @@ func scenarios(tier string) []scenario {
 		out = append(out, scenario{Event: "write_err_client_wu", State: st, Bound: b}, scenario{Event: "write_err_server_fwd", State: st, Bound: b})
 	}
 	out = append(out, scenario{Event: "write_err_server_wu", State: "midstream", Bound: b}, scenario{Event: "write_err_client_fwd", State: "midstream", Bound: b})
+	// the session ends before it is fully set up: in the middle of the client preface, or after the preface but
+	// before any SETTINGS frame
+	for _, st := range []string{"mid_preface", "pre_settings"} {
+		for _, ev := range []string{"client_close", "server_close", "shutdown", "bad_frame_client"} {
+			out = append(out, scenario{Event: ev, State: st, Bound: b})
+		}
+	}
 	out = append(out, scenario{Event: "bad_preface", State: "idle", Bound: b}, scenario{Event: "dial_error", State: "idle", Bound: b})
 	return out
 }
